@@ -22,6 +22,7 @@ import (
 type DbSqlite struct {
 	db        *sql.DB
 	meta      Meta
+	metaLock  sync.RWMutex
 	writeLock sync.Mutex
 }
 
@@ -602,7 +603,7 @@ func (sdb *DbSqlite) edgePoints(nodeID, parentID string, points data.Points) err
 		return fmt.Errorf("Error: edgePoints nodeID=parentID=%v", nodeID)
 	}
 
-	if nodeID == sdb.meta.RootID {
+	if nodeID == sdb.rootNodeID() {
 		for _, p := range points {
 			if p.Type == data.PointTypeTombstone && p.Value > 0 {
 				return fmt.Errorf("Error, can't delete root node")
@@ -854,7 +855,7 @@ NextPin:
 				rollback()
 				return fmt.Errorf("Error update root id in meta: %w", err)
 			}
-			sdb.meta.RootID = nodeID
+			sdb.setRootNodeID(nodeID)
 			verifSite("ep.rootSet")
 		}
 	}
@@ -1070,8 +1071,18 @@ func (sdb *DbSqlite) Close() error {
 	return sdb.db.Close()
 }
 
+// rootNodeID returns the ID of the root node. The root ID can change while
+// the store is running (a new root edge is inserted), so access is locked.
 func (sdb *DbSqlite) rootNodeID() string {
+	sdb.metaLock.RLock()
+	defer sdb.metaLock.RUnlock()
 	return sdb.meta.RootID
+}
+
+func (sdb *DbSqlite) setRootNodeID(id string) {
+	sdb.metaLock.Lock()
+	defer sdb.metaLock.Unlock()
+	sdb.meta.RootID = id
 }
 
 // If parent is set to "all", then all instances of the node are returned.
@@ -1093,7 +1104,7 @@ func (sdb *DbSqlite) getNodes(tx *sql.Tx, parent, id, typ string, includeDel boo
 	switch {
 	case parent == "root":
 		// return a single root node
-		q = fmt.Sprintf("SELECT * FROM edges WHERE down = '%v'", sdb.meta.RootID)
+		q = fmt.Sprintf("SELECT * FROM edges WHERE down = '%v'", sdb.rootNodeID())
 	case parent == "all" && id == "all":
 		return nil, errors.New("invalid combination of parent and id")
 	case parent == "all":
